@@ -5,7 +5,7 @@
     initialized|finished->initialized (reset), any->closed, closed never left.
     Table: Gen/FsmConfig.v, REGENERATED from nextline/fsm/config.py on every run.
     Model: Life/Model.v; "for every history and schedule" = for every label list. *)
-From NL Require Import Life.Model Life.LockInv Life.FsmInv Life.Hist Life.Single Life.FsmMoves Life.Table Gen.FsmConfig.
+From NL Require Import Life.Model Life.LockInv Life.FsmInv Life.Hist Life.Single Life.FsmMoves Life.Table Life.StatePubs Gen.FsmConfig.
 
 (** the configured transition table is exactly the documented diagram *)
 Theorem C01_table_sound : forall tr a d b, In (tr, a, d, b) table ->
@@ -53,6 +53,14 @@ Theorem C01_closed_absorbing : forall stmt start th md ls l,
   st_fsm s = Closed -> st_fsm (step s l) = Closed.
 Proof. exact closed_absorbing. Qed.
 
+(** the state subscription: for every history and schedule, what `subscribe_state()` yields
+    starts at 'initialized' and every two consecutive values are equal or an edge of the diagram
+    (assumption F of the model is what keeps the run's completion from overtaking 'running') *)
+Theorem C01_subscription : forall stmt start th md ls,
+  let s := run_labels (init_state stmt start th md) ls in
+  path_from_initialized (states_of (pubs_of (history s))).
+Proof. exact state_pubs_path. Qed.
+
 (** a run request that the state does not allow is refused ... *)
 Theorem C01_invalid_run_refused : forall s t c part2,
   runlike c = true -> st_fsm s <> Initialized -> enter s t c part2 = refuse s t c.
@@ -90,6 +98,7 @@ Print Assumptions C01_table_complete.
 Print Assumptions C01_model_follows_table.
 Print Assumptions C01_state_attr.
 Print Assumptions C01_closed_absorbing.
+Print Assumptions C01_subscription.
 Print Assumptions C01_invalid_run_refused.
 Print Assumptions C01_invalid_reset_refused.
 Print Assumptions C01_refused_changes_nothing.
